@@ -1,7 +1,12 @@
+mod conc;
+mod core;
 mod gen;
+mod img;
 mod io;
 mod json;
+mod lock;
 mod model;
+mod pl;
 mod scen;
 mod sys;
 mod util;
@@ -66,9 +71,9 @@ fn minimise(ops: &[sys::Op], mask: sys::Mask, kind: &str, budget: usize) -> Vec<
             let mut cand = cur[..i].to_vec();
             cand.extend_from_slice(&cur[end..]);
             tries += 1;
-            let ok = std::panic::catch_unwind(|| sys::run_script("min", &cand, mask));
+            let ok = run_script_watchdog("min", cand.clone(), mask, 60);
             match ok {
-                Ok((Err(m), _)) if m.kind == kind => {
+                (Err(m), _) if m.kind == kind && m.kind != "hang" => {
                     cur = cand[..=m.op_index.min(cand.len() - 1)].to_vec();
                     progress = true;
                 }
@@ -83,6 +88,28 @@ fn minimise(ops: &[sys::Op], mask: sys::Mask, kind: &str, budget: usize) -> Vec<
         }
     }
     cur
+}
+
+/// run a script on its own thread with a time limit; a run that does not come back is reported
+/// as a hang (the thread is abandoned, the process exits at the end anyway)
+fn run_script_watchdog(tag: &'static str, ops: Vec<sys::Op>, mask: sys::Mask, limit_s: u64) -> (Result<(), sys::Mismatch>, sys::Stats) {
+    let (tx, rx) = std::sync::mpsc::channel();
+    let n_ops = ops.len();
+    std::thread::spawn(move || {
+        let r = std::panic::catch_unwind(|| sys::run_script(tag, &ops, mask));
+        let _ = tx.send(r);
+    });
+    match rx.recv_timeout(std::time::Duration::from_secs(limit_s)) {
+        Ok(Ok(x)) => x,
+        Ok(Err(e)) => {
+            let msg = e.downcast_ref::<String>().cloned().or_else(|| e.downcast_ref::<&str>().map(|s| s.to_string())).unwrap_or_default();
+            (Err(sys::Mismatch { kind: "harness", op_index: 0, detail: format!("harness panic: {}", msg) }), sys::Stats::default())
+        }
+        Err(_) => (
+            Err(sys::Mismatch { kind: "hang", op_index: n_ops.saturating_sub(1), detail: format!("the script did not finish within {} s (an operation never returned)", limit_s) }),
+            sys::Stats::default(),
+        ),
+    }
 }
 
 fn cmd_sys(kv: &HashMap<String, String>) -> i32 {
@@ -136,14 +163,7 @@ fn cmd_sys(kv: &HashMap<String, String>) -> i32 {
             if i >= sc.len() {
                 break;
             }
-            let r = std::panic::catch_unwind(|| sys::run_script("sys", &sc[i].ops, mask));
-            let (res, st) = match r {
-                Ok(x) => x,
-                Err(e) => {
-                    let msg = e.downcast_ref::<String>().cloned().or_else(|| e.downcast_ref::<&str>().map(|s| s.to_string())).unwrap_or_default();
-                    (Err(sys::Mismatch { kind: "harness", op_index: 0, detail: format!("harness panic: {}", msg) }), sys::Stats::default())
-                }
-            };
+            let (res, st) = run_script_watchdog("sys", sc[i].ops.clone(), mask, 120);
             q.lock().unwrap().1.push((i, res, st));
         }));
     }
@@ -173,7 +193,8 @@ fn cmd_sys(kv: &HashMap<String, String>) -> i32 {
             }
             // minimise and write the replay
             let upto = &scenarios[*i].ops[..=m.op_index.min(scenarios[*i].ops.len() - 1)];
-            let small = if m.kind == "harness" { upto.to_vec() } else { minimise(upto, mask, m.kind, 60) };
+            // minimise only the first few violations of a run (each costs up to 60 re-runs)
+            let small = if m.kind == "harness" || m.kind == "hang" || violations.len() >= 4 { upto.to_vec() } else { minimise(upto, mask, m.kind, 60) };
             let path = format!("{}/{}-seed{}-{}.script", replay_dir, prop, seed, i);
             let mut txt = format!("# property {} kind {} at op {}\n# {}\n# scenario: {}\n", prop, m.kind, m.op_index, m.detail.replace('\n', " "), scenarios[*i].label);
             txt += &sys::script_to_text(&small);
@@ -216,7 +237,7 @@ fn cmd_sys(kv: &HashMap<String, String>) -> i32 {
         ("wall_s", J::Num(t0.elapsed().as_secs_f64())),
     ]);
     std::fs::write(&out, j.to_string()).unwrap();
-    if violations.is_empty() { 0 } else { 1 }
+    std::process::exit(if violations.is_empty() { 0 } else { 1 })
 }
 
 fn cmd_replay(pos: &[String], kv: &HashMap<String, String>) -> i32 {
@@ -248,6 +269,12 @@ fn main() {
         Some("sys") => cmd_sys(&kv),
         Some("replay") => cmd_replay(&pos, &kv),
         Some("io") => io::cmd_io(&kv),
+        Some("core") => core::cmd_core(&kv),
+        Some("lock") => lock::cmd_lock(&kv),
+        Some("conc") => conc::cmd_conc(&kv),
+        Some("pl") => pl::cmd_pl(&kv),
+        Some("img") => img::cmd_img(&kv),
+        Some("lockchild") => lock::lockchild_main(&pos[1], &pos[2], &pos[3], &pos[4], &pos[5]),
         Some("iochild") => io::child_main(&pos[1], &pos[2]),
         _ => {
             eprintln!("usage: nv sys --prop Cxx --tier quick|thorough --seed N --n K --out FILE | nv replay FILE [--prop Cxx]");
